@@ -1,15 +1,24 @@
 #!/bin/bash
-# usage: seedcheck.sh [tier] <seed-id>...   (default tier quick; no ids = all)
-# applies seeded/<id>/patch.diff to /repo, runs the check of the property it breaks, restores /repo.
-[ -z "$VERIF_NOLOCK" ] && exec env VERIF_NOLOCK=1 VERIF_SCRATCH=/tmp/verif-scratch flock -x /tmp/.verif-repo.lock "$0" "$@"
-tier=quick; case "$1" in quick|thorough) tier=$1; shift;; esac
-cd "$(dirname "$0")"
+# usage: seedcheck.sh [quick|thorough] [-j N] <seed-id>...   (default tier quick, 4 at a time; no ids = all)
+# For each seed: a scratch worktree of /repo HEAD with seeded/<id>/patch.diff applied, the check of the property it
+# breaks built against that worktree (VERIF_REPO), one result line. /repo itself is never patched.
+tier=quick; jobs=4
+while :; do case "$1" in quick|thorough) tier=$1; shift;; -j) jobs=$2; shift 2;; *) break;; esac; done
+cd "$(dirname "$0")"; root=$PWD
 ids=${@:-$(ls seeded | grep '^S-\|^R[2-9]-')}
-for sid in $ids; do
-  prop=$(python3 -c "import json;print(json.load(open('seeded/$sid/meta.json'))['breaks_property'])")
-  git -C /repo diff --quiet || { echo "/repo dirty"; exit 2; }
-  git -C /repo apply "$PWD/seeded/$sid/patch.diff" || { echo "$sid: patch does not apply"; continue; }
-  out=$(cd ${VERIF_ROOT:-.} && ./check $prop $tier 2>&1); rc=$?
-  git -C /repo checkout -- .
-  echo "$sid $prop $tier rc=$rc $(echo "$out" | grep -m1 -o 'VIOLATION C[0-9]*/[^:]*' | head -1)"
-done
+one() {
+  sid=$1; tier=$2; root=$3
+  prop=$(python3 -c "import json;print(json.load(open('$root/seeded/$sid/meta.json'))['breaks_property'])")
+  wt=/tmp/verif-seedcheck/$sid; rm -rf "$wt"; mkdir -p /tmp/verif-seedcheck
+  for i in 1 2 3 4 5; do git -C /repo worktree add -q --detach "$wt" HEAD 2>/dev/null && break; sleep 1; done
+  [ -d "$wt" ] || { echo "$sid $prop $tier worktree-failed"; return; }
+  if ( cd "$wt" && git apply "$root/seeded/$sid/patch.diff" 2>/dev/null ); then
+    out=$(cd "${VERIF_ROOT:-$root}" && VERIF_REPO=$wt VERIF_NOLOCK=1 VERIF_SCRATCH=/tmp/verif-scratch/$sid VERIF_JOBS=${VERIF_JOBS:-5} ./check $prop $tier 2>&1); rc=$?
+    echo "$sid $prop $tier rc=$rc $(echo "$out" | grep -m1 -o 'VIOLATION C[0-9]*/[^:]*' | head -1)"
+  else
+    echo "$sid $prop $tier patch-does-not-apply"
+  fi
+  git -C /repo worktree remove --force "$wt" 2>/dev/null
+}
+export -f one
+printf '%s\n' $ids | xargs -P "$jobs" -I{} bash -c "one {} $tier $root"
